@@ -689,3 +689,6 @@ Definition coord_conv (f : file) (d : name) : bool :=
   end.
 Definition apply_dom (f : file) (fs : list (name * afun)) : bool :=
   forallb (fun p => has (fst p) (fdims f) && afun_total (snd p) && coord_conv f (fst p)) fs.
+
+(* dimension tables are dictionaries: no repeated keys (maintained by every operation, Proofs: step_keys_nodup) *)
+Definition keys_nodup (T : dimtab) : bool := nodupb (map fst T).
